@@ -483,7 +483,9 @@ class MarkdownNormalizer(Renderer):
         # Don't add prefix to empty lines to avoid trailing whitespace.
         # Use rstrip() to preserve structural prefixes like ">" for blockquotes.
         empty_line_prefix = self._second_prefix.rstrip()
-        for line in code_content.splitlines():
+        # Split on "\n" only: `str.splitlines()` would also break at other Unicode separators
+        # (\x0b, \x0c, \x1c-\x1e, \x85, \u2028, \u2029) and drop them from the code.
+        for line in code_content.split("\n") if code_content else []:
             if line:
                 lines.append(f"{self._second_prefix}{line}")
             else:
